@@ -137,6 +137,43 @@ def _is_sign_adapted(e: ast.AST, signs: set[str], kinds: Kinds, depth=0) -> bool
     return False
 
 
+_LOG_METHODS = ("debug", "info", "warning", "warn", "error", "critical", "exception", "log", "log_debug", "msg")
+
+
+def _is_log_call(c) -> bool:
+    return isinstance(c, ast.Call) and isinstance(c.func, ast.Attribute) and c.func.attr in _LOG_METHODS and ("log" in norm(c.func).lower())
+
+
+def _only_logged(f, node, parents) -> bool:
+    """the value of `node` ends in the arguments of a logging call and nowhere else (directly, or through one local that is only
+    read inside logging calls)"""
+    q = node
+    while q is not None and not isinstance(q, ast.stmt):
+        p_ = parents.get(id(q))
+        if _is_log_call(p_) and q is not p_.func:
+            return True
+        if isinstance(p_, (ast.If, ast.While, ast.IfExp)) and q is getattr(p_, "test", None):
+            return False
+        q = p_
+    if isinstance(q, ast.Assign) and len(q.targets) == 1 and isinstance(q.targets[0], ast.Name):
+        nm = q.targets[0].id
+        reads = [x for x in body_walk(f.node) if isinstance(x, ast.Name) and x.id == nm and isinstance(x.ctx, ast.Load)]
+        if not reads:
+            return False
+        for x in reads:
+            y, inside = x, False
+            while y is not None and not isinstance(y, ast.stmt):
+                p_ = parents.get(id(y))
+                if _is_log_call(p_) and y is not p_.func:
+                    inside = True
+                    break
+                y = p_
+            if not inside:
+                return False
+        return True
+    return False
+
+
 def _whole_permutation(f, call, parents) -> bool:
     """the argsort result is only ever used as a complete index (`A[perm]`), never cut or read at a position"""
     p_ = parents.get(id(call))
@@ -199,6 +236,9 @@ def r13_1(ctx: Ctx):
                         sinks.append((n, fit, f"{last}()"))
         for n, fit, what in sinks:
             n_sinks += 1
+            if _only_logged(f, n, parents):
+                obs.append(ctx.ob("R13.1", f, n, detail=f"{what} on fitness values feeds a log record only: reported, not decided on", trivial=True))
+                continue
             if _enclosing_switch_arm(n, parents, f):
                 obs.append(ctx.ob("R13.1", f, n, detail=f"{what} on fitness inside an arm of a maximize switch (duality checked by R13.2)"))
                 continue
